@@ -362,13 +362,13 @@ def masked_measure(s, x, y, w, yfit, rng, poly=None):
         sw = np.sqrt(w[inr])
         sol, res, rank, sv = np.linalg.lstsq(A * sw[:, None], y[inr] * sw, rcond=None)
         condok = False
-        if rank == n and yfit is not None:
+        if rank == n:
             # the code solves the normal equations: forward error ~ cond^2 * eps; the unit grows accordingly and
             # numerically singular (though formally determined) systems are not compared
             kappa = sv[0] / sv[-1] if sv[-1] > 0 else np.inf
             parts['log10cond_x10'] = int(10 * np.log10(kappa)) if np.isfinite(kappa) and kappa > 0 else CAP
             condok = bool(kappa <= 1e5)
-        if condok:
+        if condok and yfit is not None:
             scale = max(np.abs(sol).max(), np.abs(y[inr]).max() * 1e-3, 1e-300) * max(1.0, kappa ** 2 * 1.1e-8)
             parts['coeff'] = units(np.abs(cm - sol).max(), scale)
             parts['yfit'] = units(np.abs(np.asarray(yfit)[inr] - A.dot(sol)).max(), scale)
@@ -381,6 +381,24 @@ def masked_measure(s, x, y, w, yfit, rng, poly=None):
         return {'disc': disc, 'bdisc': bdisc, 'parts': parts, 'exc': '', 'condok': condok}
     except Exception as ex:
         return {'disc': 0, 'bdisc': 0, 'parts': parts, 'exc': 'measuring a masked object: ' + short_exc(ex), 'condok': False}
+
+
+def illcond(s, x, w):
+    """Measured: is the weighted design matrix on the object's current (masked) knot vector numerically singular?"""
+    try:
+        k = int(s.nord)
+        mk = np.array(s.mask, dtype=bool)
+        tm = np.asarray(s.breakpoints, dtype='d')[mk]
+        if tm.size < 2 * k or np.any(np.diff(tm) <= 0):
+            return False
+        inr = (x >= tm[k - 1]) & (x <= tm[tm.size - k]) & (w > 0)
+        if not inr.any():
+            return False
+        A = design_matrix(tm, k, x[inr]) * np.sqrt(w[inr])[:, None]
+        sv = np.linalg.svd(A, compute_uv=False)
+        return bool(sv.size < tm.size - k or not sv[-1] > 0 or sv[0] / sv[-1] > 1e5)
+    except Exception:
+        return False
 
 
 def masked_record(law, nord, S, pc, maskgood, st, finite, meas, src, data=None):
@@ -663,6 +681,7 @@ def loop_history(rng, notes, big):
     events = []
     mrecs = []
     for _ in range(S):
+        ill = illcond(s, x, w)
         o = call_fit(s, x, y, w)
         if not o['exc'] and not o['before'].all():
             meas = masked_measure(s, x, y, w, o['yfit'], rng, poly=pf) if o['st'] == 0 else \
@@ -673,7 +692,7 @@ def loop_history(rng, notes, big):
             events.append({'a': 'raise', 'exc': o['exc'], 'mask': good(o['before'])})
             break
         events.append({'a': 'fit', 'mask': good(o['before']), 'st': o['st'] if isinstance(o['st'], int) else 99,
-                       'after': good(o['after']), 'finite': o['finite']})
+                       'after': good(o['after']), 'finite': o['finite'], 'illcond': ill})
         if o['st'] in (0, -2) or not isinstance(o['st'], int):
             break
     return {'nord': nord, 'S': S, 'pc': pc, 'maxfits': S, 'events': events, 'src': 'loop/' + style,
@@ -695,6 +714,7 @@ class Recorder(object):
 
         def fit(sself, xdata, ydata, invvar, x2=None):
             before = np.array(sself.mask, dtype=bool).copy()
+            ill = illcond(sself, np.asarray(xdata, dtype='d'), np.asarray(invvar, dtype='d'))
             try:
                 ret = rec.orig(sself, xdata, ydata, invvar, x2=x2)
             except Exception as ex:
@@ -703,7 +723,7 @@ class Recorder(object):
             st, yfit = ret
             fin = bool(np.all(np.isfinite(np.asarray(sself.coeff, dtype='d'))) and np.all(np.isfinite(np.asarray(yfit, dtype='d'))))
             rec.events.append({'a': 'fit', 'mask': good(before), 'after': good(np.array(sself.mask, dtype=bool)),
-                               'st': int(st) if isinstance(st, (int, np.integer)) else 99, 'finite': fin})
+                               'st': int(st) if isinstance(st, (int, np.integer)) else 99, 'finite': fin, 'illcond': ill})
             if rec.rng is not None and not before.all() and x2 is None:
                 st0 = isinstance(st, (int, np.integer)) and int(st) == 0
                 xd, yd, wd = (np.asarray(v, dtype='d') for v in (xdata, ydata, invvar))
@@ -1181,11 +1201,13 @@ def replay(ctx, case):
             s = make_sset(h['nord'], knots_for(h['nord'], h['S']), notes)
             ev = []
             for _ in range(h['S']):
+                ill = illcond(s, np.array(d['x']), np.array(d['w']))
                 o = call_fit(s, np.array(d['x']), np.array(d['y']), np.array(d['w']))
                 if o['exc']:
                     ev.append({'a': 'raise', 'exc': o['exc'], 'mask': good(o['before'])})
                     break
-                ev.append({'a': 'fit', 'mask': good(o['before']), 'st': o['st'], 'after': good(o['after']), 'finite': o['finite']})
+                ev.append({'a': 'fit', 'mask': good(o['before']), 'st': o['st'], 'after': good(o['after']), 'finite': o['finite'],
+                           'illcond': ill})
                 if o['st'] in (0, -2):
                     break
             print('events now:', ev)
